@@ -429,7 +429,7 @@ def main():
     N = 3 if tier == 'quick' else 4
     R = 2 if tier == 'quick' else 3
     rep.cov['bounds'] = dict(tree_blocks=N, response_blocks=R, announced_headers=3, stable_height='symbolic u32',
-                             per_block='decodes? x parent in {tree blocks, earlier response blocks, stable-only, unknown} x re-send of an existing block? x validator verdict',
+                             per_block='decodes? x parent in {tree blocks, earlier response blocks, stable-only, unknown, a header that was only announced, an announced header on top of that} x re-send of an existing block? x validator verdict',
                              outside='the validator verdict itself (C11, C12) and byte-level decoding (dependency); transaction-validity of block contents (delegated to proof of work by the statement)')
     rep.cov['functions_encoded'] = ['heartbeat::maybe_process_response', 'state::insert_block', 'ValidationContext::{new,new_with_next_block_headers}',
                                     '<ValidationContext as HeaderStore>::{get_with_block_hash,get_with_height,height}', 'unstable_blocks::{push,get_chain_with_tip}',
